@@ -6,8 +6,8 @@ import (
 	"time"
 
 	"github.com/yaricom/goNEAT/v4/neat"
-	neatmath "github.com/yaricom/goNEAT/v4/neat/math"
 	"github.com/yaricom/goNEAT/v4/neat/genetics"
+	neatmath "github.com/yaricom/goNEAT/v4/neat/math"
 	"github.com/yaricom/goNEAT/v4/neat/network"
 )
 
@@ -26,8 +26,8 @@ const (
 
 type c20Event struct {
 	kind, trial, gen int
-	solved, failed  bool
-	trialGens       int // number of generations recorded in the trial at notification time
+	solved, failed   bool
+	trialGens        int // number of generations recorded in the trial at notification time
 }
 
 type c20State struct {
@@ -147,7 +147,7 @@ func vc20(maxRuns, maxGens int, observer, epochErrors bool) {
 	log := c20.log
 	i := 0
 	next := func(kind int) bool { return i < len(log) && log[i].kind == kind }
-	aborted := false    // an evaluator/executor error or a cancellation ended the run
+	aborted := false // an evaluator/executor error or a cancellation ended the run
 	var wantErr error
 	trialsDone := 0
 	for t := 0; t < runs && !aborted; t++ {
@@ -229,6 +229,6 @@ func vc20(maxRuns, maxGens int, observer, epochErrors bool) {
 	vReach("end")
 }
 
-func VC20_Execute_Quick()        { vc20(2, 2, true, false) }
-func VC20_NoObserver_Quick()     { vc20(2, 2, false, false) }
-func VC20_Execute_Thorough()     { vc20(3, 3, true, true) }
+func VC20_Execute_Quick()    { vc20(2, 2, true, false) }
+func VC20_NoObserver_Quick() { vc20(2, 2, false, false) }
+func VC20_Execute_Thorough() { vc20(3, 3, true, true) }
